@@ -37,6 +37,7 @@ type ServerCfg struct {
 	MaxPacketSize  int
 	Medias         int // medias of the served stream (default 2)
 	ExtraFormats   int // additional formats offered by the first media (default 0)
+	Multicast      bool // offer multicast delivery (224.1.0.0/16, a free port pair)
 	AuthUser       string
 	AuthPass       string
 	IP             string // listen address, default 127.0.0.1
@@ -56,6 +57,7 @@ type Bed struct {
 	Stream  *gortsplib.ServerStream
 	Desc    *description.Session
 	Port    int
+	McastPort int // multicast RTP port (RTCP = +1) when Cfg.Multicast
 	UDPPort int
 	IP      string
 
@@ -374,6 +376,12 @@ func Start(cfg ServerCfg) (*Bed, error) {
 			b.UDPPort = FreeUDPPair(b.IP)
 			s.UDPRTPAddress = net.JoinHostPort(b.IP, strconv.Itoa(b.UDPPort))
 			s.UDPRTCPAddress = net.JoinHostPort(b.IP, strconv.Itoa(b.UDPPort+1))
+		}
+		if cfg.Multicast {
+			b.McastPort = FreeUDPPair("0.0.0.0")
+			s.MulticastIPRange = "224.1.0.0/16"
+			s.MulticastRTPPort = b.McastPort
+			s.MulticastRTCPPort = b.McastPort + 1
 		}
 		if cfg.CheckPeriod != 0 || cfg.ReportPeriod != 0 {
 			gortsplib.VerifSetServerKnobs(s, nil, cfg.ReportPeriod, cfg.ReportPeriod, cfg.CheckPeriod)
